@@ -8,6 +8,7 @@ import (
 	"sort"
 	"strings"
 
+	"sialint/internal/cfgx"
 	"sialint/internal/ir"
 )
 
@@ -344,4 +345,260 @@ func c12r11(c *Ctx) {
 		})
 		ob.Check(found > 0, nil, "Manager.%s never compares its starting point with the result of Store.BestIndex at that height: a starting point that is known but on a side chain is answered with best-chain data that does not attach to it — the requester cannot add what it fetched, drops the honest peer and stays on its lighter fork", name)
 	}
+}
+
+// Rules added in seed round o.
+func init() {
+	Explanations["C17"] += " (R7) the in-memory backend's put and delete record the write in the session's pending table (a store into an entry of a per-bucket table held in a MemDB field) on every success path, whatever the committed table holds: as the overlay of the caching wrapper its committed table is empty, so a tombstone recorded only for committed keys lets reads fall through to the wrapped database and the flush never deletes the key there."
+	Explanations["C13"] += " (R16) the elements a block confirmed are collected from the Created element diffs: every loop over an apply update's siacoin / siafund element diffs that files the element's state element under its id tests the diff's Created flag."
+	register(&Rule{ID: "C17.R7", Prop: "C17", Floor: 2, Doc: "the in-memory backend records every accepted put / delete in its pending tables on every success path, independent of what is committed", Run: c17r7})
+	register(&Rule{ID: "C13.R16", Prop: "C13", Floor: 2, Doc: "elements confirmed by a block are collected from the Created element diffs", Run: c13r16})
+	mutant(Mutant{Rule: "C17.R7", Name: "tombstone-only-for-committed-keys", File: "chain/db.go",
+		Old: "\tdb.dels[bucket][string(key)] = struct{}{}\n\tdelete(db.puts[bucket], string(key))\n", New: "\tdelete(db.puts[bucket], string(key))\n\tif _, ok := db.buckets[bucket][string(key)]; ok {\n\t\tdb.dels[bucket][string(key)] = struct{}{}\n\t}\n"})
+	mutant(Mutant{Rule: "C13.R16", Name: "confirmed-siafund-elements-from-spent-diffs", File: "chain/manager.go",
+		Old: "\t\t\tif sfed.Created {\n\t\t\t\tconfirmedStateElements[", New: "\t\t\tif sfed.Spent {\n\t\t\t\tconfirmedStateElements["})
+}
+
+func c17r7(c *Ctx) {
+	n := 0
+	mbT := memBucketType(c.P)
+	for _, name := range []string{"Put", "Delete"} {
+		raw := c.P.Fn("chain", mbT, name)
+		if raw == nil {
+			continue
+		}
+		// the function of the backend that performs the store: the bucket method itself or a helper of package chain
+		// it calls (followed three levels deep)
+		f := raw
+		{
+			level := []*ir.Func{raw}
+			seen := map[*ir.Func]bool{raw: true}
+			found := false
+			for depth := 0; depth < 4 && !found; depth++ {
+				var next []*ir.Func
+				for _, cand := range level {
+					if storesIntoNestedTable(cand) {
+						f, found = cand, true
+						break
+					}
+					for _, call := range cand.Calls(false) {
+						if call.Fn == nil || call.Fn.Pkg() == nil || call.Fn.Pkg().Path() != ir.PkgPath("chain") {
+							continue
+						}
+						if g := c.P.FuncOf(call.Fn); g != nil && g.Body != nil && !seen[g] {
+							seen[g] = true
+							next = append(next, g)
+						}
+					}
+				}
+				level = next
+			}
+		}
+		n++
+		g := f.Graph()
+		c.VisitGraph(f)
+		ob := c.Ob(f, "pending-table-written-on-every-success-path", f.Body.Pos())
+		recv := recvNamed(f.Obj)
+		// stores into an entry of a per-bucket table: X[k] = v where X is an entry of a map field of the receiver type,
+		// or a local defined from such an entry
+		fromField := func(e ast.Expr) bool {
+			_, path := f.RootObj(e)
+			for _, fld := range path {
+				if _, isMap := fld.Type().Underlying().(*types.Map); isMap && recv != nil {
+					return true
+				}
+			}
+			return false
+		}
+		isStore := map[ast.Node]bool{}
+		ir.Walk(f.Body, false, func(x ast.Node) {
+			as, ok := x.(*ast.AssignStmt)
+			if !ok {
+				return
+			}
+			for _, lhs := range as.Lhs {
+				ix, ok := ast.Unparen(lhs).(*ast.IndexExpr)
+				if !ok {
+					continue
+				}
+				inner := ast.Unparen(ix.X)
+				if _, twoLevel := inner.(*ast.IndexExpr); twoLevel && fromField(inner) {
+					isStore[as] = true
+				} else if id, isID := inner.(*ast.Ident); isID {
+					if obj := f.ObjOf(id); obj != nil {
+						if _, isMap := obj.Type().Underlying().(*types.Map); !isMap {
+							continue
+						}
+						// a local table taken from an entry of a map field, directly or through a helper it is handed to
+						var srcs []ast.Expr
+						for _, d := range wholeDefs(f, obj) {
+							if d.RHS != nil {
+								srcs = append(srcs, d.RHS)
+							}
+						}
+						if call, _ := tupleDef(f, obj); call != nil {
+							srcs = append(srcs, call)
+						}
+						for _, src := range srcs {
+							ast.Inspect(src, func(n ast.Node) bool {
+								if sel, ok := n.(*ast.SelectorExpr); ok {
+									if fld := f.FieldOf(sel); fld != nil {
+										if mt, isMap := fld.Type().Underlying().(*types.Map); isMap {
+											if _, nested := mt.Elem().Underlying().(*types.Map); nested {
+												isStore[as] = true
+											}
+										}
+									}
+								}
+								return true
+							})
+						}
+					}
+				}
+			}
+		})
+		if len(isStore) == 0 {
+			ob.Unknown("no store into a per-bucket pending table recognised in %s", f.Name())
+			continue
+		}
+		records := func(nd *cfgx.Node) bool {
+			if nd.AST == nil {
+				return false
+			}
+			hit := false
+			for st := range isStore {
+				if nd.AST == st || (nd.AST.Pos() <= st.Pos() && st.End() <= nd.AST.End()) {
+					hit = true
+				}
+			}
+			return hit
+		}
+		var wit *cfgx.Visit
+		for nd, v := range g.Reach([]*cfgx.Visit{cfgx.StartAt(g.Entry, 0)}, records) {
+			if _, isRet := nd.AST.(*ast.ReturnStmt); isRet && f.ClassifyReturn(nd) != ir.RetError && wit == nil {
+				wit = v
+			}
+		}
+		if wit != nil {
+			ob.Bad(c.Witness(wit), "%s can report success without recording the write in the session's pending table: as the caching wrapper's overlay (whose committed table is empty) it then leaves no trace, so reads fall through to the wrapped database and the flush does not carry the write", f.Name())
+		} else {
+			ob.OK("every success path records the write")
+		}
+	}
+	if n == 0 {
+		ir.Fail("the in-memory bucket's Put / Delete not found")
+	}
+}
+
+func c13r16(c *Ctx) {
+	n := 0
+	for _, f := range c.P.PkgFuncs("chain") {
+		if f.Body == nil {
+			continue
+		}
+		ir.Walk(f.Body, true, func(x ast.Node) {
+			rs, ok := x.(*ast.RangeStmt)
+			if !ok || rs.Value == nil {
+				return
+			}
+			call, ok := ast.Unparen(rs.X).(*ast.CallExpr)
+			if !ok {
+				return
+			}
+			fn := f.Callee(call)
+			if fn == nil || (fn.Name() != "SiacoinElementDiffs" && fn.Name() != "SiafundElementDiffs") {
+				return
+			}
+			if rn := recvNamed(fn); rn == nil || rn.Obj().Name() != "ApplyUpdate" {
+				return
+			}
+			lv := f.ObjOf(rs.Value)
+			if lv == nil {
+				return
+			}
+			// does the body file the element's state element in a map?
+			files := false
+			ir.Walk(rs.Body, true, func(y ast.Node) {
+				as, ok := y.(*ast.AssignStmt)
+				if !ok || len(as.Lhs) != 1 || len(as.Rhs) != 1 {
+					return
+				}
+				ix, ok := ast.Unparen(as.Lhs[0]).(*ast.IndexExpr)
+				if !ok {
+					return
+				}
+				if _, isMap := f.TypeOf(ix.X).Underlying().(*types.Map); !isMap {
+					return
+				}
+				if f.MentionsObj(as.Rhs[0], true, lv) && strings.Contains(types.ExprString(as.Rhs[0]), "StateElement") {
+					files = true
+				}
+			})
+			if !files {
+				return
+			}
+			n++
+			c.Visit(1)
+			ob := c.Ob(f, "confirmed-elements-from-created-diffs:"+fn.Name(), rs.Pos())
+			tested := false
+			ir.Walk(rs.Body, true, func(y ast.Node) {
+				var cond ast.Expr
+				switch s := y.(type) {
+				case *ast.IfStmt:
+					cond = s.Cond
+				case *ast.CaseClause:
+					for _, e := range s.List {
+						if mentionsFieldOf(f, e, lv, "Created") {
+							tested = true
+						}
+					}
+				}
+				if cond != nil && mentionsFieldOf(f, cond, lv, "Created") {
+					tested = true
+				}
+			})
+			ob.Check(tested, nil, "the loop over %s files state elements under their ids without testing the diff's Created flag: elements that were spent (not created) by the block are taken for the confirmed versions of ephemeral parents, and a child of a parent confirmed on the way keeps an unassigned leaf index and no proof", fn.Name())
+		})
+	}
+	if n == 0 {
+		ir.Fail("no loop collecting confirmed elements from an apply update's element diffs found in package chain")
+	}
+}
+
+func mentionsFieldOf(f *ir.Func, e ast.Expr, obj types.Object, field string) bool {
+	found := false
+	ast.Inspect(e, func(n ast.Node) bool {
+		if sel, ok := n.(*ast.SelectorExpr); ok && sel.Sel.Name == field {
+			if root, _ := f.RootObj(sel.X); root == obj {
+				found = true
+			}
+		}
+		return true
+	})
+	return found
+}
+
+// storesIntoNestedTable: does f assign to an entry of a map (the cheap recogniser used to pick the function c17r7 analyses)?
+func storesIntoNestedTable(f *ir.Func) bool {
+	hit := false
+	ir.Walk(f.Body, false, func(x ast.Node) {
+		as, ok := x.(*ast.AssignStmt)
+		if !ok {
+			return
+		}
+		for _, lhs := range as.Lhs {
+			if ix, ok := ast.Unparen(lhs).(*ast.IndexExpr); ok {
+				if _, isMap := f.TypeOf(ix.X).Underlying().(*types.Map); isMap {
+					if _, isBasic := f.TypeOf(ix.Index).Underlying().(*types.Basic); isBasic {
+						if _, inner := ast.Unparen(ix.X).(*ast.IndexExpr); inner {
+							hit = true
+						} else if _, isID := ast.Unparen(ix.X).(*ast.Ident); isID {
+							hit = true
+						}
+					}
+				}
+			}
+		}
+	})
+	return hit
 }
